@@ -278,7 +278,7 @@ impl<'t, 'a> Gen<'t, 'a> {
         }
         let d1 = d - 1;
         // alternative 0 must be a leaf (exhausted tape)
-        let w: [u32; 24] = [
+        let w: [u32; 28] = [
             10, // 0 leaf
             22, // 1 a + b
             5,  // 2 other binary
@@ -303,6 +303,10 @@ impl<'t, 'a> Gen<'t, 'a> {
             2,  // 21 bare allowed call
             2,  // 22 await / yield when legal
             2,  // 23 paren
+            2,  // 24 `in` (parenthesised: legal in a for head too)
+            2,  // 25 tagged template whose tag is an operation / a member
+            1,  // 26 new.target
+            2,  // 27 super.m(..)
         ];
         match self.t.weighted(&w) {
             0 => self.leaf(),
@@ -318,10 +322,24 @@ impl<'t, 'a> Gen<'t, 'a> {
             5 => self.opt_chain(d1),
             6 => self.proto_call(d1),
             7 => {
-                let callee = match self.t.weighted(&[3, 2, 1]) {
+                let callee = match self.t.weighted(&[6, 4, 2, 1, 1]) {
                     0 => E::id("h"),
                     1 => self.local_fn_or_h(),
-                    _ => self.ident(),
+                    2 => self.ident(),
+                    3 => {
+                        // `(0, recv.m)(args)`: what transpilers emit for imported bindings - a call WITHOUT receiver
+                        self.tag("indirect-call");
+                        let recv = self.ident();
+                        let m = self.method_name();
+                        E::Seq(vec![E::raw("0"), E::Member { obj: recv.bx(), prop: m, optional: false }]).paren()
+                    }
+                    _ => {
+                        // `(recv.m)(args)`: the parentheses change nothing, the receiver stays
+                        self.tag("paren-member-callee");
+                        let recv = self.receiver(d1.min(1));
+                        let m = self.method_name();
+                        E::Member { obj: recv.bx(), prop: m, optional: false }.paren()
+                    }
                 };
                 let args = self.args(d1);
                 E::Call { callee: callee.bx(), args, optional: false }
@@ -504,6 +522,9 @@ impl<'t, 'a> Gen<'t, 'a> {
                     return self.leaf();
                 }
                 let n = self.o.bare[self.t.below(self.o.bare.len())].clone();
+                if n == "eval" {
+                    return self.direct_eval();
+                }
                 let args = self.args(d1);
                 self.tag("bare-call");
                 E::Call { callee: E::Id(n).bx(), args, optional: false }
@@ -523,6 +544,63 @@ impl<'t, 'a> Gen<'t, 'a> {
                     E::Yield { delegate: false, arg: Some(e.bx()) }.paren()
                 } else {
                     self.leaf()
+                }
+            }
+            24 => {
+                self.tag("in-operator");
+                let l = self.expr(d1);
+                let r = self.expr(d1);
+                E::Bin("in", l.bx(), r.bx()).paren()
+            }
+            25 => {
+                // `a.trim()`x${b}``, `o.concat`x``: the tag is evaluated like a callee, the template is not an untagged one
+                self.tag("tagged-template");
+                self.tag("tag-is-operation");
+                let tag = match self.t.below(3) {
+                    0 => self.method_call(d1.min(2)),
+                    1 => {
+                        let o = self.ident();
+                        E::Member { obj: o.bx(), prop: self.method_name(), optional: false }
+                    }
+                    _ => self.plus(d1.min(1)).paren(),
+                };
+                let sub = self.expr(d1.min(2));
+                E::Tpl { tag: Some(tag.bx()), quasis: vec![self.quasi(), self.quasi()], exprs: vec![sub] }
+            }
+            26 => {
+                if !self.sc().this_ok {
+                    return self.leaf();
+                }
+                // `new.target`: a primary expression that is neither identifier nor literal, as receiver / operand
+                self.tag("new-target");
+                let nt = E::Member { obj: E::Raw("new".into()).bx(), prop: "target".into(), optional: false };
+                match self.t.below(3) {
+                    0 => nt,
+                    1 => {
+                        let m = self.method_name();
+                        let args = self.args(d1.min(1));
+                        E::Call { callee: E::Member { obj: E::Member { obj: nt.bx(), prop: "nm".into(), optional: self.t.flag() }.bx(), prop: m, optional: false }.bx(), args, optional: false }
+                    }
+                    _ => {
+                        let r = self.expr(d1.min(1));
+                        E::Bin("+", nt.bx(), r.bx())
+                    }
+                }
+            }
+            27 => {
+                if !self.sc().super_ok {
+                    return self.leaf();
+                }
+                // `super.trim(x)`: `super` is not a value, the call cannot be re-dispatched through a temporary
+                self.tag("super-method-call");
+                let m = self.method_name();
+                let args = self.args(d1);
+                let call = E::Call { callee: E::Member { obj: E::Raw("super".into()).bx(), prop: m, optional: false }.bx(), args, optional: false };
+                if self.t.flag() {
+                    let m2 = self.method_name();
+                    E::Call { callee: E::Member { obj: call.bx(), prop: m2, optional: self.t.chance(60) }.bx(), args: vec![], optional: false }
+                } else {
+                    call
                 }
             }
             _ => {
@@ -711,7 +789,34 @@ impl<'t, 'a> Gen<'t, 'a> {
         } else {
             base
         };
-        let e = match self.t.weighted(&[6, 3, 3, 2, 2, 2, 2, 2, 3, 2]) {
+        let e = match self.t.weighted(&[6, 3, 3, 2, 2, 2, 2, 2, 3, 2, 2]) {
+            // a?.p.m.call(x, args) / a?.m.apply(x) / a?.p.m.apply(x, arr): `.call` / `.apply` of a configured method on a chain
+            10 => {
+                self.tag("opt-chain-call-apply");
+                let this_arg = self.ident();
+                let path = if self.t.flag() {
+                    E::Member { obj: E::Member { obj: base.bx(), prop: p, optional: true }.bx(), prop: m, optional: false }
+                } else {
+                    E::Member { obj: base.bx(), prop: m, optional: true }
+                };
+                match self.t.below(5) {
+                    0 => {
+                        let mut a = vec![Arg { spread: false, e: this_arg }];
+                        a.extend(args);
+                        E::Call { callee: E::Member { obj: path.bx(), prop: "call".into(), optional: false }.bx(), args: a, optional: false }
+                    }
+                    1 => E::Call { callee: E::Member { obj: path.bx(), prop: "call".into(), optional: false }.bx(), args: vec![], optional: false },
+                    2 => E::Call { callee: E::Member { obj: path.bx(), prop: "apply".into(), optional: false }.bx(), args: vec![Arg { spread: false, e: this_arg }], optional: false },
+                    3 => {
+                        let arr = self.ident();
+                        E::Call { callee: E::Member { obj: path.bx(), prop: "apply".into(), optional: false }.bx(), args: vec![Arg { spread: false, e: this_arg }, Arg { spread: false, e: arr }], optional: false }
+                    }
+                    _ => {
+                        let elems: Vec<Option<Arg>> = args.into_iter().map(Some).collect();
+                        E::Call { callee: E::Member { obj: path.bx(), prop: "apply".into(), optional: false }.bx(), args: vec![Arg { spread: false, e: this_arg }, Arg { spread: false, e: E::Array(elems) }], optional: false }
+                    }
+                }
+            }
             // a?.m(args).m2(args2): two configured calls in one chain
             8 => {
                 let m2 = self.method_name();
@@ -962,6 +1067,21 @@ impl<'t, 'a> Gen<'t, 'a> {
             target
         };
         E::Assign(op, target.bx(), self.guard_literal_sum(r).bx()).paren()
+    }
+
+    /// `eval(<code that reads a local>)` with an argument that is not a plain identifier or literal: must stay a DIRECT eval
+    fn direct_eval(&mut self) -> E {
+        self.tag("direct-eval");
+        let local = if self.sc().in_fn && self.sc().vars.iter().any(|v| v == "x") { "x" } else { "undefinedLocal" };
+        let code = format!("'typeof {local}'");
+        let arg = match self.t.below(5) {
+            0 => E::Bin("+", E::Raw(code).bx(), E::raw("''").bx()),
+            1 => E::Seq(vec![E::raw("'s'"), E::Raw(code)]).paren(),
+            2 => E::Index { obj: E::Array(vec![Some(Arg { spread: false, e: E::Raw(code) })]).bx(), idx: E::raw("0").bx(), optional: false },
+            3 => E::Call { callee: E::id("String").bx(), args: vec![Arg { spread: false, e: E::Raw(code) }], optional: false },
+            _ => E::Raw(code),
+        };
+        E::Call { callee: E::id("eval").bx(), args: vec![Arg { spread: false, e: arg }], optional: false }
     }
 
     fn local_fn_or_h(&mut self) -> E {
@@ -1361,6 +1481,13 @@ impl<'t, 'a> Gen<'t, 'a> {
                 } else {
                     b2 = format!("{{ y = 'caught' + ({err} instanceof TypeError) + (typeof {err});\n{}", &b2[1..]);
                 }
+                if self.t.chance(40) {
+                    // `catch ({ nope: e = <operation> })`: a binding pattern with a default in the catch clause
+                    self.tag("catch-pattern-default");
+                    let dflt = self.expr(d.min(2));
+                    let b2p = if self.o.exec { b2.replace(&format!("({err} instanceof TypeError) + (typeof {err})"), &format!("(typeof {err})")) } else { b2.clone() };
+                    return format!("try {} catch ({{ nope: {} = {} }}) {}", b1, err, Self::arg_text(&dflt), b2p);
+                }
                 match self.t.weighted(&[3, 2, 1]) {
                     0 => format!("try {} catch ({}) {}", b1, err, b2),
                     1 => {
@@ -1415,7 +1542,19 @@ impl<'t, 'a> Gen<'t, 'a> {
                 let v2 = self.fresh("v");
                 let dflt = self.expr(d.min(2));
                 let init = self.expr(d);
-                let s = match self.t.below(3) {
+                let s = match self.t.below(5) {
+                    3 => {
+                        // computed keys and member targets of a destructuring assignment are expressions of the block too
+                        self.tag("destructuring-assignment-targets");
+                        let k = self.expr(d.min(2));
+                        let k2 = self.expr(d.min(2));
+                        format!("let {}, {};\n({{ [{}]: {}, q: o[{}] = {} }} = Object({}));", v1, v2, k.print(), v1, k2.print(), Self::arg_text(&dflt), Self::arg_text(&init))
+                    }
+                    4 => {
+                        self.tag("destructuring-assignment-targets");
+                        let k = self.expr(d.min(2));
+                        format!("let {}, {};\n[o[{}], {} = {}] = [{}];", v1, v2, k.print(), v2, Self::arg_text(&dflt), Self::arg_text(&init))
+                    }
                     0 => format!("const {{p: {}, q: {} = {}}} = Object({});", v1, v2, Self::arg_text(&dflt), Self::arg_text(&init)),
                     1 => format!("const [{}, {} = {}] = [{}];", v1, v2, Self::arg_text(&dflt), Self::arg_text(&init)),
                     _ => {
@@ -1876,11 +2015,18 @@ impl<'t, 'a> Gen<'t, 'a> {
         self.scopes.pop();
         let a = self.expr(d.min(2));
         let t = self.assignable_ident();
+        // `yield* <operation>` (delegation to whatever the operation yields) or `yield* [<operation>]`
+        let delegate = if self.t.chance(70) {
+            self.tag("yield-star-operation");
+            Self::arg_text(&e2)
+        } else {
+            format!("[{}]", Self::arg_text(&e2))
+        };
         format!(
-            "function* {name}({p}) {{\n{dir}const r{name} = yield {};\n{}\nyield* [{}];\nreturn {};\n}}\n{} = [...{name}({})];",
+            "function* {name}({p}) {{\n{dir}const r{name} = yield {};\n{}\nyield* {};\nreturn {};\n}}\n{} = [...{name}({})];",
             Self::arg_text(&e1),
             s1,
-            Self::arg_text(&e2),
+            delegate,
             e3.print(),
             t.print(),
             Self::arg_text(&a)
@@ -1976,6 +2122,24 @@ impl<'t, 'a> Gen<'t, 'a> {
             self.scopes.pop();
             self.tag("class-setter-private");
             members.push(format!("#priv = 1;\nset sv({sp}) {{ this.#priv = {}; }}\nget pv() {{ return this.#priv; }}\nstatic has(o) {{ return #priv in o; }}", Self::arg_text(&se)));
+            if self.t.chance(140) {
+                // a private accessor (every read runs code) and a private field as operands of `+` / `+=`
+                self.tag("private-member-operand");
+                let l1 = self.leaf();
+                let l2 = self.leaf();
+                members.push(format!("get #acc() {{ return h(this.#priv); }}\nset #acc(v) {{ h(v); }}\npa() {{ return [this.#acc + {}, this.#priv += {}, this.#acc += 's', `${{this.#acc}}${{{}}}`]; }}", l1.print(), Self::arg_text(&l2), l1.print()));
+            }
+        }
+        if self.t.chance(60) {
+            // a private method that has the name of a configured method: `this.#trim(x)` is not a call of `trim`
+            self.tag("private-method-named-like-configured");
+            let m = self.method_name();
+            let sp = self.fresh("p");
+            self.push_member_scope(&[sp.clone()]);
+            let a1 = self.expr(d.min(2));
+            let a2 = self.expr(d.min(2));
+            self.scopes.pop();
+            members.push(format!("#{m}(v) {{ return v; }}\npm{m}({sp}) {{ return this.#{m}({}) + {}; }}", Self::arg_text(&a1), Self::plus_operand(&a2)));
         }
         if self.t.chance(80) {
             self.tag("static-block");
@@ -2010,7 +2174,18 @@ impl<'t, 'a> Gen<'t, 'a> {
             1 => format!("new {name}({}).gp", Self::arg_text(&a)),
             _ => format!("[new {name}({}).fld, {name}.sfld, {name}.sm && {name}.sm({})]", Self::arg_text(&a), Self::arg_text(&b)),
         };
-        let ext = if derived { " extends K" } else { "" };
+        let ext = if derived {
+            if self.t.chance(70) {
+                // the heritage clause is an expression of the enclosing block: `class C extends (<operation>, K)`
+                self.tag("class-heritage-operation");
+                let h = self.expr(d.min(2));
+                format!(" extends ({}, K)", Self::arg_text(&h))
+            } else {
+                " extends K".to_string()
+            }
+        } else {
+            String::new()
+        };
         format!("class {name}{ext} {{\n{}\n}}\n{} = {};", members.join("\n"), t.print(), usage)
     }
 
